@@ -34,7 +34,8 @@ def _one(args):
         # the change must at least compile
         c = subprocess.run(['python3-vt', '-m', 'compileall', '-q', os.path.join(t, 'edzed')], capture_output=True, text=True)
         if c.returncode != 0: return dict(name=m['name'], kind=m['kind'], outcome='does-not-compile')
-        env = dict(os.environ, VERIF_REPO=t, VERIF_OUT=os.path.join(t, 'out'), VERIF_TIER='quick')
+        # (each run gets a share of the cores: oversubscription would turn proofs into time-outs)
+        env = dict(os.environ, VERIF_REPO=t, VERIF_OUT=os.path.join(t, 'out'), VERIF_TIER='quick', PYVC_WORKERS=str(max(2, (os.cpu_count() or 4) // 4)))
         p = subprocess.run([os.path.join(HERE, 'bin', 'check'), prop], env=env, capture_output=True, text=True, timeout=3600)
         failed = sorted({l.split('failed obligation:')[1].strip() for l in p.stdout.splitlines() if 'failed obligation:' in l})
         undec = sorted({l.split('obligation=')[1].strip() for l in p.stdout.splitlines() if l.startswith('UNDECIDED')})
@@ -45,7 +46,7 @@ def _one(args):
         shutil.rmtree(t, ignore_errors=True)
 
 
-def run_mutants(prop, repo, workers=5):
+def run_mutants(prop, repo, workers=4):
     entries = []
     f = os.path.join(HERE, 'mutants', f'{prop}.json')
     if os.path.exists(f):
